@@ -336,6 +336,46 @@ func TestC17_Enveloped(t *testing.T) {
 			t.Fatalf("AES-GCM content 'decrypted' without error under a wrong key")
 		}
 		cl = append(cl, "wrong_key")
+		// the hash C3 inside a recipient's wrapped content key is part of the SM2 ciphertext's integrity: one bit of it
+		// changed and that recipient must be refused (the others are not affected)
+		if !useRSA {
+			tlvs := rder.Walk(env)
+			var c3 []rder.TLV
+			for _, tl := range tlvs {
+				// encryptedKey: the raw SM2 ciphertext 04 || x || y || (C3 || C2 | C2 || C3) of the 8- or 16-byte content key
+				if tl.Tag == 0x04 && (tl.Len == 97+8 || tl.Len == 97+16) && env[tl.Start+tl.HdrLen] == 0x04 {
+					c3 = append(c3, tl)
+				}
+			}
+			if len(c3) != nrec {
+				t.Fatalf("harness: found %d C3 fields for %d recipients", len(c3), nrec)
+			}
+			victim := rapid.IntRange(0, nrec-1).Draw(t, "c3victim")
+			mut := append([]byte{}, env...)
+			c3off := c3[victim].Start + c3[victim].HdrLen + 65 // C1C3C2: behind 04 || x || y
+			if mode == sm2.C1C2C3 {
+				c3off = c3[victim].Start + c3[victim].HdrLen + c3[victim].Len - 32
+			}
+			mut[c3off+rapid.IntRange(0, 31).Draw(t, "c3pos")] ^= 1 << uint(rapid.IntRange(0, 7).Draw(t, "c3bit"))
+			// (recipientInfos is a SET OF: the order on the wire need not be the order of the certificates - exactly one
+			// recipient, whichever it is, must now be refused, and every other one must still recover the content)
+			refused := 0
+			for i := 0; i < nrec; i++ {
+				out, err, pn := dec(mut, certs[i], keyOf(i))
+				if pn != nil {
+					t.Fatalf("decrypt of an envelope with an altered C3 panicked: %v\n%s", pn.Val, pn.Stack)
+				}
+				if err != nil {
+					refused++
+				} else if !bytes.Equal(out, content) {
+					t.Fatalf("recipient %d got %d bytes of OTHER content after one wrapped key's C3 was altered", i, len(out))
+				}
+			}
+			if refused != 1 {
+				t.Fatalf("one recipient's wrapped content key had a bit of its hash C3 altered: %d of %d recipients were refused, want exactly 1 (mode %d, alg %d)", refused, nrec, mode, alg)
+			}
+			cl = append(cl, "wrapped_key_c3_altered")
+		}
 		// corruption: sampled single-byte substitutions
 		nm := 6
 		for i := 0; i < nm; i++ {
